@@ -74,11 +74,15 @@ theorem rev_lawful : Lawful rev :=
       unfold rev; omega,
    fun a b c h1 h2 => natural_lawful.trans c b a h2 h1⟩
 
+theorem diff_lawful : Lawful diff :=
+  ⟨fun a b => by unfold diff; omega, fun a b c h1 h2 => by unfold diff at *; omega⟩
+
 theorem ofName_lawful {n : String} {cmp : Cmp} (h : ofName n = some cmp) : Lawful cmp := by
   unfold ofName at h
   split at h <;> simp at h <;> subst h
   · exact natural_lawful
   · exact div3_lawful
   · exact rev_lawful
+  · exact diff_lawful
 
 end Ekit.Cmp
